@@ -28,8 +28,15 @@ func (s *scope) makevar(varname string) string {
 // newname generates a new JS name for the given variable name, without
 // bringing the variable into scope.
 func (s *scope) newname(varname string) string {
+	return varname + s.suffix()
+}
+
+// suffix returns the ending of the next generated name.  It is set off from
+// the variable name ("x1" + "2" and "x" + "12" would be the same name), as in
+// the names the official compiler generates.
+func (s *scope) suffix() string {
 	s.n++
-	return varname + strconv.Itoa(s.n)
+	return "__soy" + strconv.Itoa(s.n)
 }
 
 // bind brings the variable into (the innermost) scope under the given JS name.
@@ -48,8 +55,7 @@ func (s *scope) lookup(varname string) string {
 }
 
 func (s *scope) pushForRange(loopVar string) (lVar, lLimit, lIndex, lCount string) {
-	s.n++
-	n := strconv.Itoa(s.n)
+	n := s.suffix()
 	s.stack = append(s.stack, map[string]string{
 		loopVar:             loopVar + n,
 		"__limit":           loopVar + "Count" + n,
@@ -64,8 +70,7 @@ func (s *scope) pushForRange(loopVar string) (lVar, lLimit, lIndex, lCount strin
 }
 
 func (s *scope) pushForEach(loopVar string) (lVar, lList, lLen, lIndex string) {
-	s.n++
-	n := strconv.Itoa(s.n)
+	n := s.suffix()
 	s.stack = append(s.stack, map[string]string{
 		loopVar:             loopVar + n,
 		"__limit":           loopVar + "Limit" + n,
